@@ -330,8 +330,12 @@ func runC07(c *kit.Ctx) {
 		}
 		return false, "ranged slice " + kit.Path(callSlice) + " and result slice " + kit.Path(resSlice) + " are not related"
 	}
-	for _, s := range sites {
-		idx := s.ia.Index
+	judge := func(fn *ssa.Function, ia *ssa.IndexAddr, pos token.Pos, kind string, val ssa.Value) {
+		idx := ia.Index
+		verb := "written"
+		if kind == "slot-load" {
+			verb = "read"
+		}
 		// (a) map lookup
 		if lk, ok := kit.Strip(idx).(*ssa.Lookup); ok && isIndexMap(lk.X.Type()) {
 			good := true
@@ -341,29 +345,60 @@ func runC07(c *kit.Ctx) {
 				good, why = false, "the index map is not the one SendBatch filled"
 			}
 			// R3: a received result goes to the receiver's slot
-			if good {
-				if from := receivedFrom(p, s.store.Val); from != nil && !kit.Same(from, lk.Index) {
+			if good && val != nil {
+				if from := receivedFrom(p, val); from != nil && !kit.Same(from, lk.Index) {
 					good, why = false, "the result received from "+kit.Path(from)+".ResultChan() is stored into the slot of "+kit.Path(lk.Index)
 				}
 			}
 			if good {
-				c.OK(s.fn, "slot-store", s.store.Pos(), why)
+				c.OK(fn, kind, pos, why)
 			} else {
-				c.Bad(s.fn, "slot-store", s.store.Pos(), "result slot written with a wrong index: "+why, "")
+				c.Bad(fn, kind, pos, "result slot "+verb+" with a wrong index: "+why, "")
 			}
-			continue
+			return
 		}
 		// (b) aligned range index
 		if sl, ok := rangeOfIndex(idx); ok {
-			ok2, why := checkAligned(s.fn, s.ia.X, sl, 0)
+			ok2, why := checkAligned(fn, ia.X, sl, 0)
 			if ok2 {
-				c.OK(s.fn, "slot-store", s.store.Pos(), "indexed by the position in "+kit.Path(sl)+": "+why)
+				c.OK(fn, kind, pos, "indexed by the position in "+kit.Path(sl)+": "+why)
 			} else {
-				c.Bad(s.fn, "slot-store", s.store.Pos(), "result slot indexed by the position in a slice that is not aligned with the result slice (the i-th result would describe another call): "+why, "")
+				c.Bad(fn, kind, pos, "result slot "+verb+" by the position in a slice that is not aligned with the result slice (the i-th result describes another call): "+why, "")
 			}
+			return
+		}
+		c.Unk(fn, kind, pos, "result slot "+verb+" with an index of unrecognised provenance ("+kit.Path(idx)+")")
+	}
+	for _, s := range sites {
+		judge(s.fn, s.ia, s.store.Pos(), "slot-store", s.store.Val)
+	}
+	// reads of result slots follow the same rule (hasServerError, the scatter of the per-round lookup errors)
+	for _, fn := range p.Funcs {
+		if !p.IsSubject(fn) {
 			continue
 		}
-		c.Unk(s.fn, "slot-store", s.store.Pos(), "store into a result slot with an index of unrecognised provenance ("+kit.Path(idx)+")")
+		kit.Instrs(fn, func(in ssa.Instruction) {
+			ia, ok := in.(*ssa.IndexAddr)
+			if !ok || !isResultSlice(p, ia.X.Type()) {
+				return
+			}
+			isRead := false
+			for _, r := range kit.Referrers(ia) {
+				switch u := r.(type) {
+				case *ssa.UnOp:
+					isRead = isRead || u.Op == token.MUL
+				case *ssa.FieldAddr:
+					for _, rr := range kit.Referrers(u) {
+						if l, ok := rr.(*ssa.UnOp); ok && l.Op == token.MUL {
+							isRead = true
+						}
+					}
+				}
+			}
+			if isRead {
+				judge(fn, ia, ia.Pos(), "slot-load", nil)
+			}
+		})
 	}
 
 	if !c.Frozen {
@@ -373,6 +408,9 @@ func runC07(c *kit.Ctx) {
 	// ---- R5 ---------------------------------------------------------------
 	c.StartRule("R5", "what is stored into a slot is a real outcome; every queued call gets one", 4)
 	unbufferedHandoff(c)
+	clearedCallSlotsAreSkipped(c)
+	locateFailuresClearOK(c)
+	dialStartsTheBatcher(c)
 	for _, s := range sites {
 		// (a) an error taken from a context is the error of the context that was seen done
 		if fa, ok := s.store.Addr.(*ssa.FieldAddr); ok && kit.FieldVar(fa.X.Type(), fa.Field).Name() == "Error" {
